@@ -28,33 +28,40 @@ func buildReferenceGraph(values map[string][]token) map[string][]string {
 	return graph
 }
 
-// nodeContainsCycle checks for a cycle in graph by performing a depth first traversal
-// recursively, starting from node, and passing the visited nodes to stop if a cycle
-// is found
-func nodeContainsCycle(node string, graph map[string][]string, visited []string) (bool, string) {
-	visited = append(visited, node)
+// nodeContainsCycle checks for a cycle in graph by performing a depth first
+// traversal starting from node. state holds, for every node already seen, 1
+// while it is on the current path and 2 once everything reachable from it is
+// known to be free of cycles, so every node and edge is visited only once.
+func nodeContainsCycle(node string, graph map[string][]string, state map[string]uint8) (bool, string) {
+	state[node] = 1
 
 	symRefs, ok := graph[node]
-	if !ok {
-		return false, ""
+	if ok {
+		for _, ref := range symRefs {
+			switch state[ref] {
+			case 1:
+				return true, ref
+			case 2:
+				continue
+			}
+			subCycle, key := nodeContainsCycle(ref, graph, state)
+			if subCycle {
+				return true, key
+			}
+		}
 	}
 
-	for _, ref := range symRefs {
-		if slices.Contains(visited, ref) {
-			return true, ref
-		}
-		subCycle, key := nodeContainsCycle(ref, graph, visited)
-		if subCycle {
-			return true, key
-		}
-	}
-
+	state[node] = 2
 	return false, ""
 }
 
 func graphContainsCycle(graph map[string][]string) (bool, string) {
+	state := make(map[string]uint8, len(graph))
 	for key := range graph {
-		nodeCycle, cycleKey := nodeContainsCycle(key, graph, []string{})
+		if state[key] != 0 {
+			continue
+		}
+		nodeCycle, cycleKey := nodeContainsCycle(key, graph, state)
 		if nodeCycle {
 			return true, cycleKey
 		}
